@@ -480,6 +480,54 @@ fn test_gemm_u8i8_i32_zero_point() {
     })
 }
 
+// Test per-row and per-column zero points where the matrix is large enough
+// that there are multiple MR-row panels of A and NR-column panels of B.
+#[test]
+fn test_gemm_u8i8_i32_zero_point_multiple_panels() {
+    #[derive(Copy, Clone, Debug)]
+    struct Case {
+        m: usize,
+        n: usize,
+        k: usize,
+    }
+
+    let cases = [
+        Case {
+            m: 40,
+            n: 70,
+            k: 10,
+        },
+        Case {
+            m: 64,
+            n: 128,
+            k: 4,
+        },
+    ];
+
+    cases.test_each(|&Case { m, n, k }| {
+        for gemm in all_gemms::<u8, i8, i32>() {
+            let mut lhs_rng = XorShiftRng::new(1234);
+            let mut rhs_rng = ReducedRangeRng::new(gemm.may_saturate(), 5678);
+
+            let a = NdTensor::<u8, 2>::rand([m, k], &mut lhs_rng);
+            let b = NdTensor::<i8, 2>::rand([k, n], &mut rhs_rng);
+
+            let a_zero_point: Vec<_> = (0..a.rows()).map(|x| x as u8).collect();
+            let b_zero_point: Vec<_> = (0..b.cols()).map(|x| x as i8).collect();
+            let opts = Some(GemmOpts {
+                a_quant: Some(QuantParams {
+                    zero_point: &a_zero_point,
+                }),
+                b_quant: Some(QuantParams {
+                    zero_point: &b_zero_point,
+                }),
+                ..Default::default()
+            });
+            run_compare_matmul(a.view(), b.view(), opts, Some(&gemm));
+        }
+    })
+}
+
 #[test]
 fn test_gemm_u8i8_i32_invalid_zero_point() {
     let mut rng = XorShiftRng::new(1234);
